@@ -1429,6 +1429,7 @@ theorem stmtC_succ {k : Nat} (hC : CallC cfg scfg k) (hB : BlockC cfg scfg base 
           | .err er s => .err er s
           | .oof => .oof := by
         intro f; rw [execTS, tick_unlimited cfg hmax]
+        cases evalExpr cfg (callValue₀ cfg f) l e (tk st) <;> rfl
       cases hS : evalExpr cfg (callS scfg k) l' e st' with
       | oof => exact Or.inl rfl
       | err er sS =>
@@ -1451,27 +1452,36 @@ theorem stmtC_succ {k : Nat} (hC : CallC cfg scfg k) (hB : BlockC cfg scfg base 
         simp only [hT, this]; rfl
   | label _ => simp [okS] at hok
   | jump _ _ => simp [okS] at hok
-  | include _ => simp [okS] at hok
+  | «include» _ => simp [okS] at hok
   | brk =>
     simp only [okS] at hok
     rw [execSS]
     have hne : lk ≠ .none := by intro h; subst h; simp [LK.inLoop] at hok
-    refine (csim_tick cfg hmax (K := fun f st1 => .brk l st1 f) (Or.inr ⟨.brk l (tk st), 0,
-      ⟨hne, hl, tk_rel hs, KeepL.refl i l, GKeep.refl l i _⟩, 0, Nat.le_refl 0, fun _ _ => rfl⟩)).congr
-      (fun f => by rw [execTS]; simp only [hok, if_true])
+    have hT : ∀ f, execTS cfg (callValue₀ cfg) (execIncludes₀ cfg) lk.inLoop .brk i f l base st =
+        tick cfg f st (fun f st1 => .brk l st1 f) := fun f => by rw [execTS]; simp only [hok, if_true]
+    have h0 : CSim lk i l st.globals (fun f => (fun f st1 => TOut.brk l st1 f) f (tk st)) (.brk l' st') :=
+      Or.inr ⟨.brk l (tk st), 0, ⟨hne, hl, tk_rel hs, KeepL.refl i l, GKeep.refl l i _⟩, 0, Nat.le_refl 0, fun _ _ => rfl⟩
+    exact (csim_tick cfg hmax h0).congr hT
   | cont =>
     simp only [okS, decide_eq_true_eq] at hok
     subst hok
     rw [execSS]
-    refine (csim_tick cfg hmax (K := fun f st1 => .cont l st1 f) (Or.inr ⟨.cont l (tk st), 0,
-      ⟨rfl, hl, tk_rel hs, KeepL.refl i l, GKeep.refl l i _⟩, 0, Nat.le_refl 0, fun _ _ => rfl⟩)).congr
-      (fun f => by rw [execTS]; simp only [LK.inLoop, if_true])
+    have hT : ∀ f, execTS cfg (callValue₀ cfg) (execIncludes₀ cfg) LK.forL.inLoop .cont i f l base st =
+        tick cfg f st (fun f st1 => .cont l st1 f) := fun f => by rw [execTS]; simp only [LK.inLoop, if_true]
+    have h0 : CSim .forL i l st.globals (fun f => (fun f st1 => TOut.cont l st1 f) f (tk st)) (.cont l' st') :=
+      Or.inr ⟨.cont l (tk st), 0, ⟨rfl, hl, tk_rel hs, KeepL.refl i l, GKeep.refl l i _⟩, 0, Nat.le_refl 0, fun _ _ => rfl⟩
+    exact (csim_tick cfg hmax h0).congr hT
   | func fid n args laa isAsync b =>
     simp only [okS, Bool.not_eq_true'] at hok
     rw [execSS]
-    refine (csim_tick cfg hmax (K := fun f st1 => .norm l { st1 with globals := st1.globals.set n (.fn (.script fid)) } f)
-      (csim_norm ⟨hl, ⟨hs.1, vis_set_congr hs.2 n _ hok⟩, KeepL.refl i l, ?_⟩)).congr (fun f => by rw [execTS])
-    exact GKeep.of_all l i (keepAll_set_user _ n _ hok)
+    have hT : ∀ f, execTS cfg (callValue₀ cfg) (execIncludes₀ cfg) lk.inLoop (.func fid n args laa isAsync b) i f l base st =
+        tick cfg f st (fun f st1 => .norm l { st1 with globals := st1.globals.set n (.fn (.script fid)) } f) :=
+      fun f => by rw [execTS]
+    have h0 : CSim lk i l st.globals
+        (fun f => (fun f st1 => TOut.norm l { st1 with globals := st1.globals.set n (.fn (.script fid)) } f) f (tk st))
+        (.norm l' { st' with globals := st'.globals.set n (.fn (.script fid)) }) :=
+      csim_norm ⟨hl, ⟨hs.1, vis_set_congr hs.2 n _ hok⟩, KeepL.refl i l, GKeep.of_all l i (keepAll_set_user _ n _ hok)⟩
+    exact (csim_tick cfg hmax h0).congr hT
   | ite c t e =>
     simp only [okS, Bool.and_eq_true] at hok
     rw [execSS_ite ag]
@@ -1589,6 +1599,141 @@ theorem stmtC_succ {k : Nat} (hC : CallC cfg scfg k) (hB : BlockC cfg scfg base 
             simp only [ForInv, vValues, vLength, vIndex, tk_globals]
             exact ⟨(hne4 _ (hgen _ _)).trans hval2, (hne4 _ (hgen _ _)).trans hself2, fun h => by cases h⟩
 
+omit htb hhost hmax in
+theorem callC_succ {k : Nat} (hhost' : HostNoReserved cfg.host) (hC : CallC cfg scfg k) (hB : BlockC cfg scfg none k) :
+    CallC cfg scfg (k+1) := by
+  intro fv args st' st hs
+  have notFn : ∀ v : Value,
+      (callS scfg (k+1) v args st' = .ok .null { st' with world := cfg.host.notCallable v st'.world }) →
+      (∀ m, callValue₀ cfg (m+1) v args st = .ok .null { st with world := cfg.host.notCallable v st.world }) →
+      OSimG false 0 st'.globals (callS scfg (k+1) v args st') (fun m => callValue₀ cfg m v args st) := by
+    intro v h1 h2
+    rw [h1]
+    exact ⟨{ st with world := cfg.host.notCallable v st.world }, ⟨by simp only [hs.1], hs.2⟩, (fun h => absurd h (by decide)),
+      ev_succ h2⟩
+  cases fv with
+  | fn fn =>
+    cases fn with
+    | script id =>
+      cases hd : scfg.sfuns id with
+      | none =>
+        have hf : cfg.funs id = none := by rw [ag.funs, hd]; rfl
+        exact notFn _ (by rw [callS]; simp only [hd, ag.host]) (fun m => by rw [callValue₀]; simp only [hf])
+      | some d =>
+        have hf : cfg.funs id = some (lowerDef (start id) d) := by rw [ag.funs, hd]; rfl
+        obtain ⟨hraw, hok⟩ := htab id d hd
+        rw [callS_script ag k id args st' d hd]
+        have hT : ∀ m, callValue₀ cfg (m+1) (.fn (.script id)) args st =
+            resK (toRes (execTB cfg (callValue₀ cfg) (execIncludes₀ cfg) false d.body (start id) m
+              (some (bindArgs cfg.host d.lastArgArray d.args args [] st.world).1) none
+              { st with world := (bindArgs cfg.host d.lastArgArray d.args args [] st.world).2 })) := by
+          intro m
+          rw [callValue₀_script cfg m id args st _ hf]
+          simp only [lowerDef]
+          rw [run_body_eq cfg none d.body (start id) hraw]
+        rw [hs.1]
+        generalize bindArgs cfg.host d.lastArgArray d.args args [] st.world = bw at hT ⊢
+        obtain ⟨loc, w1⟩ := bw
+        simp only at hT ⊢
+        have hsim := hB .none d.body (start id) hok (some loc) { st with world := w1 } (some loc) { st' with world := w1 }
+          (LRel.refl _) ⟨rfl, hs.2.symm⟩
+        simp only [LK.inLoop] at hsim
+        rcases hsim with h | ⟨o, c, hr, N, hc, hN⟩
+        · rw [h]; trivial
+        · cases o <;> cases ho : execSB scfg k d.body (some loc) { st' with world := w1 } <;> rw [ho] at hr <;>
+            simp only [ORel] at hr
+          · rename_i l1 s1 l1' s1'
+            refine ⟨s1, hr.2.1.symm, (fun h => absurd h (by decide)), N+1, fun m hm => ?_⟩
+            obtain ⟨m', rfl⟩ : ∃ m', m = m'+1 := ⟨m-1, by omega⟩
+            have := hN m' (by omega)
+            simp only at this
+            simp only [hT, this]; rfl
+          · exact absurd rfl hr.1
+          · exact absurd hr.1 (by decide)
+          · rename_i v1 s1 v1' s1'
+            obtain ⟨rfl, h1, _⟩ := hr
+            refine ⟨s1, h1.symm, (fun h => absurd h (by decide)), N+1, fun m hm => ?_⟩
+            obtain ⟨m', rfl⟩ : ∃ m', m = m'+1 := ⟨m-1, by omega⟩
+            have := hN m' (by omega)
+            simp only at this
+            simp only [hT, this]; rfl
+          · rename_i e1 s1 e1' s1'
+            obtain ⟨rfl, h1⟩ := hr
+            refine Or.inr ⟨s1, h1.symm, N+1, fun m hm => ?_⟩
+            obtain ⟨m', rfl⟩ : ∃ m', m = m'+1 := ⟨m-1, by omega⟩
+            have := hN m' (by omega)
+            simp only at this
+            simp only [hT, this]; rfl
+    | lib name =>
+      have h := runTree_sim cfg hC (hhost'.1 name args st'.world) st' st hs
+      rw [callS, runTreeS_eq ag, ag.host]
+      refine OSimG.step h fun m => ?_
+      rw [callValue₀, hs.1]
+    | other j =>
+      have h := runTree_sim cfg hC (hhost'.2 j args st'.world) st' st hs
+      rw [callS, runTreeS_eq ag, ag.host]
+      refine OSimG.step h fun m => ?_
+      rw [callValue₀, hs.1]
+  | null => exact notFn _ (by rw [callS, ag.host] <;> (intro _ h; cases h)) (fun m => by rw [callValue₀] <;> (intro _ h; cases h))
+  | bool b => exact notFn _ (by rw [callS, ag.host] <;> (intro _ h; cases h)) (fun m => by rw [callValue₀] <;> (intro _ h; cases h))
+  | num q => exact notFn _ (by rw [callS, ag.host] <;> (intro _ h; cases h)) (fun m => by rw [callValue₀] <;> (intro _ h; cases h))
+  | str q => exact notFn _ (by rw [callS, ag.host] <;> (intro _ h; cases h)) (fun m => by rw [callValue₀] <;> (intro _ h; cases h))
+  | dt q => exact notFn _ (by rw [callS, ag.host] <;> (intro _ h; cases h)) (fun m => by rw [callValue₀] <;> (intro _ h; cases h))
+  | arr q => exact notFn _ (by rw [callS, ag.host] <;> (intro _ h; cases h)) (fun m => by rw [callValue₀] <;> (intro _ h; cases h))
+  | obj q => exact notFn _ (by rw [callS, ag.host] <;> (intro _ h; cases h)) (fun m => by rw [callValue₀] <;> (intro _ h; cases h))
+  | regex q => exact notFn _ (by rw [callS, ag.host] <;> (intro _ h; cases h)) (fun m => by rw [callValue₀] <;> (intro _ h; cases h))
+
+omit base in
+/-- everything the converse needs at pure fuel `k`, proved together by induction on `k` -/
+theorem allC : ∀ k, CallC cfg scfg k ∧ ∀ base, StmtC cfg scfg base k ∧ BlockC cfg scfg base k ∧ ElseC cfg scfg base k ∧
+    WhileC cfg scfg base k ∧ ForC cfg scfg base k := by
+  intro k
+  induction k with
+  | zero =>
+    refine ⟨?_, fun base => ⟨?_, ?_, ?_, ?_, ?_⟩⟩
+    · intro fv args st' st hs; rw [callS]; trivial
+    · intro lk s i _ l st l' st' _ _; exact Or.inl (by rw [execSS])
+    · intro lk B i _ l st l' st' _ _; exact Or.inl (by rw [execSB])
+    · intro lk e i _ l st l' st' _ _; exact Or.inl (by rw [execSE])
+    · intro lk c b i _ _ l st l' st' _ _; exact Or.inl (by rw [execSS])
+    · intro lk i v ix b a n c _ _ _ l st l' st' l0 g0 _ _ _ _ _; exact Or.inl (by rw [forS])
+  | succ k ih =>
+    obtain ⟨hC, hrest⟩ := ih
+    refine ⟨callC_succ ag htab hhost hC (hrest none).2.1, fun base => ?_⟩
+    obtain ⟨hS, hB, hE, hW, hF⟩ := hrest base
+    exact ⟨stmtC_succ ag htb hhost htab hmax base hC hB hE hW hF, blockC_succ ag htb hhost htab hmax base hS hB,
+      elseC_succ ag htb hhost htab hmax base hC hB hE, whileC_succ ag htb hhost htab hmax base hC hB hW,
+      forC_succ ag htb hhost htab hmax base hC hB hF⟩
+
 end Converse
+
+section Converse2
+variable {cfg : Config W} {scfg : SConfig W} {start : FnId → Nat} (ag : Agree cfg scfg start)
+  (htb : TruthyBool cfg.host) (hhost : HostNoReserved cfg.host) (htab : TablesOK scfg)
+include ag htb hhost htab
+
+/-- **T3 (converse), unlimited budget.**  If the pure run terminates (some fuel `k`, result not out-of-fuel), the ticked
+run terminates for every sufficiently large fuel, with the same kind of outcome, the same value / error and a related
+final state. -/
+theorem ticked_erasure_converse (hmax : cfg.maxStatements = 0) (B : List SStmt) (hB : ProgOK B) (k : Nat)
+    (base : Option String) (st st' : State W) (hs : StRel st st') (hterm : runS scfg k B st' ≠ .oof) :
+    ∃ r, ResRel r (runS scfg k B st') ∧ ∃ N, ∀ f, N ≤ f → runT₀ cfg f B base st = r := by
+  have hall := (allC ag htb hhost htab.tableOK hmax k).2 base
+  have hsim := hall.2.1 .none B 0 hB.ok none st none st' trivial hs
+  simp only [LK.inLoop] at hsim
+  rw [runS_eq] at hterm ⊢
+  rcases hsim with h | ⟨o, c, hr, N, hc, hN⟩
+  · rw [h] at hterm; exact absurd rfl hterm
+  · cases o <;> cases ho : execSB scfg k B none st' <;> rw [ho] at hr <;> simp only [ORel] at hr
+    · rename_i l1 s1 l1' s1'
+      exact ⟨.done s1, hr.2.1, N, fun f hf => by simp only [runT₀, hN f hf]; rfl⟩
+    · exact absurd rfl hr.1
+    · exact absurd hr.1 (by decide)
+    · rename_i v1 s1 v1' s1'
+      exact ⟨.ret v1 s1, ⟨hr.1, hr.2.1⟩, N, fun f hf => by simp only [runT₀, hN f hf]; rfl⟩
+    · rename_i e1 s1 e1' s1'
+      exact ⟨.err e1 s1, ⟨hr.1, hr.2⟩, N, fun f hf => by simp only [runT₀, hN f hf]; rfl⟩
+
+end Converse2
 
 end C01
